@@ -24,7 +24,6 @@ import (
 	"go/token"
 	"go/types"
 	"sort"
-	"strings"
 
 	"golang.org/x/tools/go/ssa"
 )
@@ -379,296 +378,6 @@ func (w *World) recvReturningMemo(f *ssa.Function) bool {
 	}
 	recvRetMemo[f] = 2
 	return false
-}
-
-type slotEvent struct {
-	ins  ssa.Instruction
-	kind string // base, add, read, unknown
-	n    int64
-	why  string
-}
-
-func addSlotProgressionRule(w *World, r *Report, rule string) {
-	key := "vm.opReferenceChangeJournal"
-	fn := w.Func(forkPath(pkVM), "opReferenceChangeJournal")
-	if fn == nil {
-		r.undecided(rule, key, "-", "function not found")
-		return
-	}
-	save, n, gets := journalSave(fn)
-	if n != 1 || save.Parent() != fn {
-		r.undecided(rule, key, w.pos(fn.Pos()), "no single recorder call in the instruction body (R9.2)")
-		return
-	}
-	// class root of a *uint256.Int value: follow receiver-returning method results back to the cell
-	var root func(v ssa.Value, d int) ssa.Value
-	root = func(v ssa.Value, d int) ssa.Value {
-		if d == 0 {
-			return v
-		}
-		if c, ok := v.(*ssa.Call); ok {
-			if cal := c.Call.StaticCallee(); cal != nil && len(c.Call.Args) > 0 && isBignumPtr(c.Call.Args[0].Type()) && cal.Signature.Recv() != nil && w.recvReturningMemo(cal) {
-				return root(c.Call.Args[0], d-1)
-			}
-		}
-		return v
-	}
-	var loopReads []*ssa.Call
-	for _, g := range gets {
-		if g.Parent() == fn && blockReaches(g.Block(), g.Block()) {
-			loopReads = append(loopReads, g)
-		}
-	}
-	if len(loopReads) == 0 {
-		r.undecided(rule, key, w.pos(fn.Pos()), "no storage read inside a loop: the multi-slot form of a string is not read word by word")
-		return
-	}
-	// the cell whose value keys the loop reads
-	var cell ssa.Value
-	readAt := map[ssa.Instruction]bool{}
-	for _, g := range loopReads {
-		k := g.Call.Args[1]
-		if ct, ok := k.(*ssa.ChangeType); ok {
-			k = ct.X
-		}
-		kc, ok := k.(*ssa.Call)
-		var cal *ssa.Function
-		if ok {
-			cal = kc.Call.StaticCallee()
-		}
-		if !ok || cal == nil || cal.Name() != "Bytes32" || len(kc.Call.Args) != 1 || !isBignumPtr(kc.Call.Args[0].Type()) {
-			r.undecided(rule, key+"/key", w.pos(g.Pos()), "the key of the storage read in the loop is not the 32-byte form of a 256-bit cell; slot progression cannot be read off")
-			return
-		}
-		c := root(kc.Call.Args[0], 6)
-		if cell != nil && cell != c {
-			r.undecided(rule, key+"/key", w.pos(g.Pos()), "the loop reads are keyed by different cells")
-			return
-		}
-		cell = c
-		readAt[kc] = true
-	}
-	if _, ok := cell.(*ssa.Alloc); !ok {
-		r.undecided(rule, key+"/key", w.pos(loopReads[0].Pos()), fmt.Sprintf("the cell keying the loop reads is not a local allocation (%T %v)", cell, cell))
-		return
-	}
-	// events on the cell
-	events := map[ssa.Instruction]slotEvent{}
-	isOne := func(v ssa.Value) bool {
-		u, ok := v.(*ssa.UnOp)
-		if !ok || u.Op != token.MUL {
-			return false
-		}
-		g, ok := u.X.(*ssa.Global)
-		if !ok {
-			return false
-		}
-		return w.globalUint256Const(g) == 1
-	}
-	slotOperand := save.Call.Args[2]
-	for _, b := range fn.Blocks {
-		for _, ins := range b.Instrs {
-			switch x := ins.(type) {
-			case *ssa.Call:
-				cal := x.Call.StaticCallee()
-				hit := -1
-				for i, arg := range x.Call.Args {
-					if root(arg, 6) == cell {
-						hit = i
-					}
-				}
-				if hit < 0 {
-					continue
-				}
-				if cal == nil || cal.Signature.Recv() == nil || !isBignumPtr(x.Call.Args[0].Type()) {
-					events[ins] = slotEvent{ins, "unknown", 0, "the cell is passed to " + x.Call.String()}
-					continue
-				}
-				recvIs := root(x.Call.Args[0], 6) == cell
-				if !recvIs || bignumReadOnly[cal.Name()] {
-					if readAt[ins] {
-						events[ins] = slotEvent{ins, "read", 0, ""}
-					}
-					continue // read-only use
-				}
-				args := x.Call.Args
-				switch {
-				case cal.Name() == "SetBytes" && len(args) == 2:
-					// base = hash of the 32-byte slot operand
-					dep := false
-					for _, b2 := range fn.Blocks {
-						for _, i2 := range b2.Instrs {
-							if c2, ok := i2.(*ssa.Call); ok {
-								if cc := c2.Call.StaticCallee(); cc != nil && cc.Name() == "Bytes32" && len(c2.Call.Args) == 1 && c2.Call.Args[0] == slotOperand && dependsOn(args[1], c2, 8) {
-									dep = true
-								}
-							}
-						}
-					}
-					if dep {
-						events[ins] = slotEvent{ins, "base", 0, ""}
-					} else {
-						events[ins] = slotEvent{ins, "unknown", 0, "the cell is set from bytes that do not derive from the slot operand"}
-					}
-				case cal.Name() == "Add" && len(args) == 3 && ((root(args[1], 6) == cell && isOne(args[2])) || (root(args[2], 6) == cell && isOne(args[1]))):
-					events[ins] = slotEvent{ins, "add", 1, ""}
-				case (cal.Name() == "AddUint64" || cal.Name() == "SetUint64") && len(args) >= 2:
-					if k, ok := args[len(args)-1].(*ssa.Const); ok && cal.Name() == "AddUint64" && root(args[1], 6) == cell && k.Value != nil && k.Value.Kind() == constant.Int {
-						nn, _ := constant.Int64Val(k.Value)
-						events[ins] = slotEvent{ins, "add", nn, ""}
-					} else {
-						events[ins] = slotEvent{ins, "unknown", 0, "the cell is rewritten by " + cal.Name()}
-					}
-				default:
-					events[ins] = slotEvent{ins, "unknown", 0, "the cell is rewritten by " + cal.Name()}
-				}
-			case *ssa.Store:
-				if root(x.Val, 6) == cell {
-					events[ins] = slotEvent{ins, "unknown", 0, "the cell's address is stored"}
-				}
-			case *ssa.MakeClosure:
-				for _, bnd := range x.Bindings {
-					if root(bnd, 6) == cell {
-						events[ins] = slotEvent{ins, "unknown", 0, "the cell is captured by a closure"}
-					}
-				}
-			}
-		}
-	}
-	// path sums: from every start instruction forward to the next read
-	type st struct {
-		b *ssa.BasicBlock
-		i int
-	}
-	sums := func(start ssa.Instruction) (map[int64]bool, string) {
-		out := map[int64]bool{}
-		// state: offsets possible at block entry
-		entry := map[*ssa.BasicBlock]map[int64]bool{}
-		var work []*ssa.BasicBlock
-		run := func(b *ssa.BasicBlock, from int, in map[int64]bool) string {
-			cur := map[int64]bool{}
-			for k := range in {
-				cur[k] = true
-			}
-			for i := from; i < len(b.Instrs); i++ {
-				ev, ok := events[b.Instrs[i]]
-				if !ok {
-					continue
-				}
-				switch ev.kind {
-				case "unknown":
-					return ev.why + " at " + w.pos(b.Instrs[i].Pos())
-				case "base":
-					return "" // re-based: this path is judged from the new base
-				case "add":
-					nx := map[int64]bool{}
-					for k := range cur {
-						nx[k+ev.n] = true
-					}
-					cur = nx
-				case "read":
-					for k := range cur {
-						out[k] = true
-					}
-					return ""
-				}
-			}
-			for _, s := range b.Succs {
-				if entry[s] == nil {
-					entry[s] = map[int64]bool{}
-				}
-				grew := false
-				for k := range cur {
-					if !entry[s][k] {
-						entry[s][k] = true
-						grew = true
-					}
-				}
-				if len(entry[s]) > 6 {
-					return "unbounded increments on a path without a read"
-				}
-				if grew {
-					work = append(work, s)
-				}
-			}
-			return ""
-		}
-		sb := start.Block()
-		idx := 0
-		for i, ins := range sb.Instrs {
-			if ins == start {
-				idx = i + 1
-			}
-		}
-		if why := run(sb, idx, map[int64]bool{0: true}); why != "" {
-			return nil, why
-		}
-		for len(work) > 0 {
-			b := work[len(work)-1]
-			work = work[:len(work)-1]
-			if why := run(b, 0, entry[b]); why != "" {
-				return nil, why
-			}
-		}
-		return out, ""
-	}
-	show := func(m map[int64]bool) string {
-		var ks []int64
-		for k := range m {
-			ks = append(ks, k)
-		}
-		sort.Slice(ks, func(i, j int) bool { return ks[i] < ks[j] })
-		var ss []string
-		for _, k := range ks {
-			ss = append(ss, fmt.Sprint(k))
-		}
-		return "{" + strings.Join(ss, ",") + "}"
-	}
-	nBase, nRead := 0, 0
-	var order []ssa.Instruction
-	for _, b := range fn.Blocks {
-		for _, ins := range b.Instrs {
-			if _, ok := events[ins]; ok {
-				order = append(order, ins)
-			}
-		}
-	}
-	for _, ins := range order {
-		ev := events[ins]
-		switch ev.kind {
-		case "base":
-			nBase++
-			m, why := sums(ins)
-			k := fmt.Sprintf("%s/first-read#%d", key, nBase)
-			switch {
-			case why != "":
-				r.undecided(rule, k, w.pos(ins.Pos()), "slot progression not analysable: "+why)
-			case len(m) == 1 && m[0]:
-				r.holds(rule, k, w.pos(ins.Pos()), "on every path from keccak(slot) to the first storage read of the loop the key is keccak(slot)+0")
-			case len(m) == 0:
-				r.undecided(rule, k, w.pos(ins.Pos()), "no storage read reachable from the base definition")
-			default:
-				r.violated(rule, k, w.pos(ins.Pos()), "the first data word of a multi-slot string lives at keccak(slot); the first storage read of the loop uses keccak(slot)+"+show(m))
-			}
-		case "read":
-			nRead++
-			m, why := sums(ins)
-			k := fmt.Sprintf("%s/step#%d", key, nRead)
-			switch {
-			case why != "":
-				r.undecided(rule, k, w.pos(ins.Pos()), "slot progression not analysable: "+why)
-			case len(m) == 1 && m[1]:
-				r.holds(rule, k, w.pos(ins.Pos()), "between two consecutive storage reads of the loop the key advances by exactly 1")
-			case len(m) == 0:
-				r.holds(rule, k, w.pos(ins.Pos()), "no further read follows this one")
-			default:
-				r.violated(rule, k, w.pos(ins.Pos()), "consecutive data words live in consecutive slots; between two reads the key advances by "+show(m))
-			}
-		}
-	}
-	if nBase == 0 {
-		r.undecided(rule, key+"/base", w.pos(fn.Pos()), "no definition of the data base keccak(slot operand) found for the cell keying the loop reads")
-	}
 }
 
 // globalUint256Const: the value n of a package-level `x = uint256.NewInt(n)` of vm, -1 if unknown.
